@@ -351,7 +351,7 @@ def owns(prop, ev, tag):
             return tag in ("bitmask-layout", "bitmask-reencode")
         return e in ("encode", "encode_seq", "roundtrip", "chain") and tag == "octets"
     if prop == "C07":
-        return e in ("encode", "encode_seq", "roundtrip", "hide") and tag in (
+        return e in ("encode", "encode_seq", "roundtrip", "hide", "hide_reveal") and tag in (
             "length-field", "get-length", "get-length-spec", "unexpected-panic", "oversize-accepted")
     if prop == "C08":
         # consumed extent and independence of what follows; wrong values as such are C05's business
@@ -365,7 +365,7 @@ def owns(prop, ev, tag):
                                         "not-stable-panic", "chain-incomplete", "native-eq")
     if prop == "C11":
         if e == "hide_reveal":
-            return died or tag in ("reveal-direct", "reveal-wire", "native-eq", "hide-of-hidden")
+            return died or tag in ("reveal-direct", "reveal-wire", "wire-panic", "native-eq", "hide-of-hidden")
         return e == "reveal" and ev.get("v", {}).get("k") != "Hidden"
     if prop == "C12":
         # (a panic where the reference construction yields a value is a difference from the reference too)
